@@ -7,6 +7,7 @@ The Spec predicates are the ones the driver `drv_c13` evaluates on the implement
 import Dtn7.Model.Node
 import Dtn7.Model.NodeSpec
 import Dtn7.Lemmas.NodeC13
+import Dtn7.Lemmas.NodeBook
 import Dtn7.Gen.C13
 
 namespace Dtn7.Props.C13
@@ -116,6 +117,38 @@ theorem gen_mule :
        "    sender = append(sender[:i], sender[i+1:]...)", "    continue",
        "if delete && len(sender) == 0", "  delete = false", "return"] := by decide
 
+/-! ## Along every history -/
+
+/-- **`never_to_prev_node`**: for every routing algorithm (and the sensor-mule wrapper), every environment,
+every number of peers and every history of `Domain13` — the histories of C05's `Domain` in which
+applications attach no previous-node block and relayed bundles satisfy `seedsPrev` (spray: not a bundle
+of this node; binary spray: carries the BinarySprayBlock — the excluded class is the known finding,
+`binary_no_block_witness`) — no algorithm-chosen transmission goes to the node named in the bundle's
+previous-node block. -/
+theorem never_to_prev_node (c : Cfg) (hfix : c.holdFix = true) (hexp : c.expiryNow = true) (env : Env) (now : Nat)
+    (h : List Event) (hdom : Domain13 c h) :
+    firstFail (fun c _ o => returnFail c o) c (SpecSt.init now) 0 ((trace env (init c now) h).map obsOf) = none :=
+  prev_run c hfix hexp env h [] _ _ 0 (by simpa using hdom) (rinv_init c now) (prevInv_init c now)
+
+/-- **`never_twice`, the inductive step** (every algorithm, any peers): let `E` be any set of endpoint IDs
+that are booked for the bundle (in its sent list) and are not its destination's node — e.g. the peers that
+got the bundle successfully before. Then one `forward`
+(1) hands the bundle to no peer of `E` by the algorithm's choice,
+(2) leaves every member of `E` booked, and
+(3) books every peer whose transmission succeeded now.
+So the set "previous node + peers served successfully" only grows while the bundle is in the store, and
+its members are never chosen again; a member leaves the sent list only by a failure report for exactly
+that peer (`failure_reenables_exactly_fn`). -/
+theorem never_twice_step (env : Env) (d : Desc) (b : Bundle) (n : Node) (it : Item)
+    (hg : n.store.get d.key = some it) (hrep : replicates n.cfg b = true) (E : Eid → Prop)
+    (hE : MustStay E b n d.key) :
+    (∀ p ok, Output.sent p b ok ∈ (forward env d b n).2 → p.eid.sameNode b.dst = false → ¬ E p.eid) ∧
+    (∀ e, E e → Booked (forward env d b n).1 d.key e) ∧
+    (∀ p, Output.sent p b true ∈ (forward env d b n).2 → p.eid.sameNode b.dst = false →
+      Booked (forward env d b n).1 d.key p.eid) :=
+  ⟨(forward_book env d b n it hg hrep E hE).1, (forward_book env d b n it hg hrep E hE).2,
+   forward_ok_booked env d b n it hg hrep⟩
+
 /-! ## The choice of every algorithm, for any number of peers -/
 
 /-- **The algorithm never picks a peer that is in the bundle's sent list, and books every peer it picks**
@@ -192,6 +225,22 @@ theorem binary_no_block_witness :
   decide
 
 /-! ## Non-vacuity -/
+
+example : Domain13
+    { self := 1, algo := .spray, mule := true, sensorNodes := [2], sprayL := 3, bcast := ⟨999, 0⟩,
+      seqFirst := false, expiryNow := true, dtlsrFail := true, holdFix := true }
+    [.peerUp ⟨1, ⟨2, 0⟩⟩,
+     .receive { tag := 1, src := ⟨7, 0⟩, ts := 900, seq := 0, dst := ⟨9, 0⟩, prev := some ⟨2, 0⟩, lifetime := 3600,
+                hop := none, age := none, delBlock := false, bsCopies := none } none,
+     .submit { tag := 3, src := ⟨1, 0⟩, ts := 901, seq := 0, dst := ⟨9, 0⟩, prev := none, lifetime := 3600,
+               hop := none, age := none, delBlock := false, bsCopies := none },
+     .retryTick, .restart] :=
+  ⟨⟨by decide, by decide, by decide⟩, by decide, by
+    intro b hb
+    simp only [received, List.mem_cons, List.not_mem_nil, or_false] at hb
+    subst hb
+    left
+    simp [seedsPrev, hasEndpoint]⟩
 
 example :
     let c : Cfg := { self := 1, algo := .epidemic, mule := false, sensorNodes := [], sprayL := 3, bcast := ⟨999, 0⟩,
